@@ -219,3 +219,360 @@ Proof.
   - refine (conj eq_refl (conj Hst (conj _ _))); [destruct HL; constructor; assumption|rewrite <- E1; exact W2].
   - refine (conj eq_refl (conj Hst (conj HL _))). rewrite <- E1; exact W2.
 Qed.
+
+(* ------------------------------------------------------------------ state-level preservation *)
+Definition KLive (b : bool) (cf : cfg) (s : state) : Prop := KS s /\ KLInv b cf s.
+
+Lemma KLOk_subnet b s p w n : KLOk b s p w -> (forall x, In x n -> In x (s_net s)) -> KLOk b (set_net s n) p w.
+Proof.
+  intros [K1 K2 K3 K4 K6 K7 K8] Hn. constructor; cbn; try assumption.
+  rewrite Forall_forall in *. intros x Hx. apply K8. apply Hn. assumption.
+Qed.
+
+Lemma KS_deliver_sub_W cf s m : KS s ->
+  (forall p, s_rp s = Some p -> gsub (rp_fr p) (s_changes s) (presented s) (s_last s) (rp_rel p) m) ->
+  KS (deliver_sub_W cf s m).
+Proof.
+  intros (HG & HN & HK) Hm. destruct (s_rp s) as [p|] eqn:Ep.
+  - split; [split; [apply deliver_sub_W_SInv; apply HG|eapply GI_deliver_sub_W; [exact HG|exact Ep|apply Hm; reflexivity]]|].
+    split; [|apply KI_deliver_sub_W; assumption].
+    intros Hn. rewrite deliver_sub_W_rd in Hn. destruct (HN Hn) as [_ Hp]. congruence.
+  - assert (Hs : deliver_sub_W cf s m = s) by (unfold deliver_sub_W; rewrite Ep; reflexivity).
+    rewrite Hs. split; [|split]; assumption.
+Qed.
+
+Lemma KLive_fold_W cf b l : forall s, KLive b cf s ->
+  (forall p, s_rp s = Some p -> Forall (gsub (rp_fr p) (s_changes s) (presented s) (s_last s) (rp_rel p)) l) ->
+  (forall p r w, s_rp s = Some p -> rp_rel p = true -> s_rd s = Some r -> rd_wp r = Some w ->
+     Forall (klsub (rp_hbc p) (s_last s) (wp_an w)) l) ->
+  KLive b cf (fold_left (deliver_sub_W cf) l s).
+Proof.
+  induction l as [|m t IH]; intros s HL Hn Hl; cbn [fold_left]; [assumption|].
+  destruct HL as [HC (L1 & L2 & L3 & L4 & L5)].
+  assert (HC1 : KS (deliver_sub_W cf s m)).
+  { apply KS_deliver_sub_W; [assumption|]. intros p Ep. specialize (Hn p Ep). inversion Hn; assumption. }
+  destruct (core_proj _ _ (deliver_sub_W_core cf s m)) as (C1 & C2 & _ & C4 & C5).
+  destruct (deliver_sub_W_frame cf s m) as (F1 & F2 & F3).
+  apply IH.
+  - split; [assumption|]. klinv_split; try congruence.
+    + rewrite C1. assumption.
+    + intros r Hr. apply L4. congruence.
+    + intros p' r w Ep' Hrel' Er Ew. rewrite F1 in Er.
+      destruct (s_rp s) as [p|] eqn:Ep.
+      2:{ assert (Hs : deliver_sub_W cf s m = s) by (unfold deliver_sub_W; rewrite Ep; reflexivity).
+          rewrite Hs in Ep'. congruence. }
+      destruct (F3 p eq_refl) as [q [Eq Hst]]. assert (p' = q) by congruence. subst p'.
+      apply static_fr in Hst. destruct Hst as (_ & Hrelq & _).
+      assert (Hrel : rp_rel p = true) by congruence.
+      specialize (Hl p r w eq_refl Hrel Er Ew). inversion Hl; subst.
+      destruct (KLOk_deliver_sub_W cf s b p w m HC L2 L3 Ep Hrel (L5 p r w eq_refl Hrel Er Ew) H1) as (q' & Eq' & _ & HLq & _).
+      assert (q' = q) by congruence. subst q'. exact HLq.
+  - intros q Eq. rewrite deliver_sub_W_presented, C1, C2.
+    destruct (s_rp s) as [p|] eqn:Ep.
+    2:{ assert (Hs : deliver_sub_W cf s m = s) by (unfold deliver_sub_W; rewrite Ep; reflexivity).
+        rewrite Hs in Eq. congruence. }
+    destruct (F3 p eq_refl) as [q' [Eq' Hst]]. assert (q' = q) by congruence. subst q'.
+    apply static_fr in Hst. destruct Hst as (Hfr & Hrl & _). rewrite Hfr, Hrl.
+    specialize (Hn p eq_refl). inversion Hn; assumption.
+  - intros q r w Eq Hrelq Er Ew. rewrite F1 in Er. rewrite C2.
+    destruct (s_rp s) as [p|] eqn:Ep.
+    2:{ assert (Hs : deliver_sub_W cf s m = s) by (unfold deliver_sub_W; rewrite Ep; reflexivity).
+        rewrite Hs in Eq. congruence. }
+    destruct (F3 p eq_refl) as [q' [Eq' Hst]]. assert (q' = q) by congruence. subst q'.
+    apply static_fr in Hst. destruct Hst as (_ & Hrelq' & _).
+    assert (Hrel : rp_rel p = true) by congruence.
+    pose proof (Hl p r w eq_refl Hrel Er Ew) as Hl'. inversion Hl'; subst.
+    destruct (KLOk_deliver_sub_W cf s b p w m HC L2 L3 Ep Hrel (L5 p r w eq_refl Hrel Er Ew) H1) as (q' & Eq'' & _ & _ & Hmono).
+    assert (q' = q) by congruence. subst q'.
+    eapply Forall_impl; [|exact H2]. intros x Hx.
+    destruct x; cbn in *; try tauto; try lia.
+Qed.
+
+Lemma deliver_subs_R_alive cf : forall l r acc r1 out, deliver_subs_R cf r l acc = (r1, out) -> rd_alive r1 = rd_alive r.
+Proof.
+  induction l as [|m t IH]; intros r0 acc r2 out0 E0; cbn in E0; [inversion E0; reflexivity|].
+  destruct (deliver_sub_R cf r0 m) as [r' o] eqn:Em. apply IH in E0. rewrite E0.
+  unfold deliver_sub_R in Em. destruct (rd_wp r0) as [w0|]; [|inversion Em; reflexivity].
+  destruct m; try (inversion Em; reflexivity).
+  - destruct (on_data _ _ _) as [w1 oc]. inversion Em. destruct oc; reflexivity.
+  - destruct (on_frag _ _ _ _ _) as [w1 oc]. inversion Em. destruct oc; reflexivity.
+  - destruct (first <=? 0); [inversion Em; reflexivity|].
+    destruct (on_hb _ _ _ _ _) as [w1 o1]. destruct (hist_received _); inversion Em; reflexivity.
+Qed.
+
+Lemma KS_gdg s p d : KS s -> s_rp s = Some p -> In d (s_net s) ->
+  gdg (rp_fr p) (s_changes s) (presented s) (s_last s) (rp_rel p) d.
+Proof.
+  intros ((_ & _ & G) & _ & _) Ep Hd. rewrite Ep in G. destruct G as (_ & _ & C & _). rewrite Forall_forall in C. auto.
+Qed.
+
+Lemma KS_subnet s n : KS s -> (forall x, In x n -> In x (s_net s)) -> (s_rd s = None -> n = []) -> KS (set_net s n).
+Proof.
+  intros ((HS & HG) & HN & HK) Hn Hnil. split; [split|split].
+  - apply SInv_set_net; [assumption|]. pose proof (si_net s HS) as H. rewrite Forall_forall in *. auto.
+  - apply GI_subnet; assumption.
+  - intros Hr. cbn in *. destruct (HN Hr) as [_ E2]. split; [auto|assumption].
+  - exact HK.
+Qed.
+
+Lemma KLive_deliver cf b s d rest : KLive b cf s -> In d (s_net s) -> (forall x, In x rest -> In x (s_net s)) ->
+  KLive b cf (deliver_dgram cf (set_net s rest) d).
+Proof.
+  intros [HC HL] Hd Hrest. split; [apply KS_deliver; assumption|].
+  pose proof HC as (HG & HN & HK). pose proof HL as (L1 & L2 & L3 & L4 & L5).
+  assert (HLr : KLive b cf (set_net s rest)).
+  { split.
+    - apply KS_subnet; [assumption|assumption|]. intros Hr. destruct (HN Hr) as [E1 _]. rewrite E1 in Hd. contradiction.
+    - klinv_split; try assumption. intros p r w Ep Hrel Er Ew. apply KLOk_subnet; [|assumption]. apply (L5 p r w); assumption. }
+  unfold deliver_dgram. destruct (dg_toR d) eqn:Edir.
+  - cbn [s_rdead set_net]. rewrite L3. cbn [s_rd set_net].
+    destruct (s_rd s) as [r|] eqn:Er; [|apply (proj2 HLr)].
+    rewrite (L4 r eq_refl).
+    destruct (deliver_subs_R cf r (dg_subs d) []) as [r1 out] eqn:E.
+    assert (Halive : rd_alive r1 = true) by (rewrite (deliver_subs_R_alive cf _ _ _ _ _ E); exact (L4 r eq_refl)).
+    destruct (rd_wp r) as [w|] eqn:Ew.
+    2:{ rewrite (deliver_subs_R_nowp cf r (dg_subs d) [] Ew) in E. inversion E; subst r1 out.
+        klinv_split; cbn; try assumption.
+        all: try (intros r' Hr'; injection Hr' as <-; exact (L4 r eq_refl)).
+        intros p r' w Ep Hrel Er' Ew'. injection Er' as <-. congruence. }
+    destruct (s_rp s) as [p|] eqn:Ep.
+    2:{ klinv_split; cbn; try assumption.
+        all: try (intros r' Hr'; injection Hr' as <-; assumption).
+        intros q r' w' Eq. congruence. }
+    destruct (rp_rel p) eqn:Erel.
+    2:{ klinv_split; cbn; try assumption.
+        all: try (intros r' Hr'; injection Hr' as <-; assumption).
+        intros q r' w' Eq Hq. congruence. }
+    pose proof (L5 p r w eq_refl Erel eq_refl Ew) as HLOk.
+    destruct (KLOk_deliver_R cf s b p r w d rest r1 out L3 HLOk Ew Hd Hrest E) as (w1 & Q1 & Q2 & Q3 & Q4).
+    klinv_split; cbn; try assumption.
+    all: try (intros r' Hr'; injection Hr' as <-; assumption).
+    intros q r' w' Eq Hq Er' Ew'. assert (q = p) by congruence. subst q. injection Er' as <-.
+    assert (w' = w1) by congruence. subst w'. exact Q4.
+  - refine (proj2 (KLive_fold_W cf b (dg_subs d) (set_net s rest) HLr _ _)).
+    + intros p Ep. cbn in Ep. apply (KS_gdg s p d HC Ep Hd).
+    + intros p r w Ep Hrel Er Ew. cbn in *.
+      destruct (L5 p r w Ep Hrel Er Ew) as [_ _ _ _ _ _ K8]. rewrite Forall_forall in K8. apply (K8 d Hd).
+Qed.
+
+Lemma KLive_poke cf b s : KLive b cf s -> KLive true cf (poke cf s).
+Proof. intros [HC HL]. split; [apply KS_poke; assumption|eapply KLInv_poke; eassumption]. Qed.
+
+Lemma KLive_pump cf fuel : forall s n, KLive true cf s -> KLive true cf (fst (pump fuel cf s n)).
+Proof.
+  induction fuel as [|f IH]; intros s n H; cbn [pump]; [assumption|].
+  destruct (s_net s) as [|d t] eqn:En; [assumption|].
+  apply IH. apply KLive_poke with (b := true). apply KLive_deliver; [assumption|rewrite En; left; reflexivity|].
+  intros x Hx. rewrite En. right. assumption.
+Qed.
+
+Lemma KLive_same_elements cf b s n : KLive b cf s -> (forall x, In x n -> In x (s_net s)) ->
+  (s_rd s = None -> n = []) -> KLive b cf (set_net s n).
+Proof.
+  intros [HC (L1 & L2 & L3 & L4 & L5)] Hn Hnil. split; [apply KS_subnet; assumption|].
+  klinv_split; try assumption. intros p r w Ep Hrel Er Ew. apply KLOk_subnet; [|assumption]. apply (L5 p r w); assumption.
+Qed.
+
+Lemma KLive_dup cf b s d rest : KLive b cf s -> In d (s_net s) -> (forall x, In x rest -> In x (s_net s)) ->
+  KLive b cf (deliver_dgram cf (poke cf (deliver_dgram cf (set_net s rest) d)) d).
+Proof.
+  intros HL Hd Hrest.
+  assert (H0 : KLive b cf (set_net s (d :: rest))).
+  { apply KLive_same_elements; [assumption| |].
+    - intros x [<-|Hx]; auto.
+    - intros Hr. destruct HL as [(_ & HN & _) _]. destruct (HN Hr) as [E _]. rewrite E in Hd. contradiction. }
+  assert (H1 : KLive b cf (deliver_dgram cf (set_net (set_net s (d :: rest)) (d :: rest)) d)).
+  { apply KLive_deliver; [assumption|left; reflexivity|auto]. }
+  assert (E1 : set_net (set_net s (d :: rest)) (d :: rest) = add_front d (set_net s rest)) by reflexivity.
+  rewrite E1, deliver_dgram_add_front in H1.
+  apply KLive_poke in H1. rewrite poke_add_front in H1.
+  set (s2 := poke cf (deliver_dgram cf (set_net s rest) d)) in *.
+  pose proof (KLive_deliver cf true (add_front d s2) d (s_net s2) H1 (or_introl eq_refl)) as H2.
+  rewrite set_net_add_front in H2. destruct H2 as [X Y]; [intros x Hx; right; assumption|].
+  split; [assumption|]. destruct b; [assumption|apply KLInv_weaken; assumption].
+Qed.
+
+Lemma KLInv_write cf s key len sum : 0 < fsz cf -> 0 <= len <= fsz cf ->
+  KLive true cf s -> KLive true cf (fst (step cf s (AWrite key len sum))).
+Proof.
+  intros Hf Hlen [HC HL].
+  assert (Hla : live_act cf (AWrite key len sum) = true).
+  { cbn. apply andb_true_intro. split; apply Z.leb_le; lia. }
+  split; [apply KS_step; assumption|].
+  pose proof (KS_act cf s (AWrite key len sum) Hla HC) as HC1.
+  unfold step in *. cbn [act] in *.
+  pose proof (do_write_frame cf s key len sum) as (F1 & F2 & F3 & F4 & F5 & F6 & F7).
+  pose proof (do_write_spec cf s key len sum) as Hw.
+  destruct (do_write cf s key len sum) as [s1 code]. cbn [fst snd] in *.
+  destruct Hw as [[-> _]|[chs1 (W1 & W2 & W3 & W4 & W5 & W6)]].
+  { eapply KLInv_poke; eassumption. }
+  destruct HL as (L1 & L2 & L3 & L4 & L5).
+  assert (Hu1 : unfrag cf (s_changes s1)).
+  { rewrite W2. intros c Hc. apply in_app_or in Hc. destruct Hc as [Hc|[<-|[]]]; [apply L2; apply W1; assumption|].
+    apply nfrags_le1; assumption. }
+  pose proof HC1 as (HG1 & HN1 & [HK1 Hp1]).
+  assert (Hun : 0 <= s_now s1 /\ s_rdead s1 = false /\ (forall r, s_rd s1 = Some r -> rd_alive r = true)).
+  { rewrite F4, F7, F2. auto. }
+  destruct Hun as (U1 & U3 & U4).
+  unfold poke. rewrite F1 in *.
+  destruct (s_rp s) as [p|] eqn:Ep.
+  2:{ klinv_split; try assumption. intros q r w Eq. congruence. }
+  destruct Hp1 as [Hhs1 Hfr1].
+  unfold write_message. destruct (rp_rel p) eqn:Erel.
+  2:{ pose proof (write_be_static (S (2 * length (s_changes s1))) cf (s_changes s1) p []) as Hs.
+      destruct (write_be_loop (S (2 * length (s_changes s1))) cf (s_changes s1) p []) as [p1 out]. cbn [fst] in Hs.
+      apply static_fr in Hs. destruct Hs as (_ & Hrel & _).
+      klinv_split; cbn; try assumption.
+      intros q r w Eq Hq. injection Eq as <-. congruence. }
+  destruct (s_rd s) as [r|] eqn:Er.
+  2:{ destruct (write_rel cf (s_now s1) (s_changes s1) p) as [p1 out].
+      klinv_split; cbn; try assumption. intros q r w _ _ Hr. congruence. }
+  destruct (rd_wp r) as [w|] eqn:Ew.
+  2:{ destruct (write_rel cf (s_now s1) (s_changes s1) p) as [p1 out].
+      klinv_split; cbn; try assumption.
+      intros q r' w _ _ Hr Hw. assert (r' = r) by congruence. subst r'. congruence. }
+  destruct (L5 p r w eq_refl Erel eq_refl Ew) as [K1 K2 K3 K4 K6 K7 K8].
+  pose proof (write_rel_liveK cf (s_now s1) (s_changes s1) (s_last s1) HK1 Hu1 p Hhs1 K2) as H. lazy zeta in H.
+  pose proof (write_rel_ha cf (s_now s1) (s_changes s1) p) as Hha.
+  pose proof (write_rel_an cf (s_now s1) (s_changes s1) p) as Han.
+  destruct (write_rel cf (s_now s1) (s_changes s1) p) as [p1 out]. cbn [fst snd] in *.
+  destruct H as (V1 & V2 & V3 & V4 & V5 & _ & _ & V8).
+  assert (Hfr0 : rp_fr p <= s_last s) by (destruct HC as (_ & _ & [_ X]); rewrite Ep in X; lia).
+  assert (Hstrict : rp_hbc p < rp_hbc p1) by (apply V8; [rewrite (K1 eq_refl); lia|lia]).
+  klinv_split; cbn; try assumption.
+  intros q r' w' Eq Hq Er' Ew'. injection Eq as <-. assert (r' = r) by congruence. subst r'.
+  assert (w' = w) by congruence. subst w'.
+  constructor; cbn.
+  - intros _. assumption.
+  - lia.
+  - lia.
+  - lia.
+  - destruct V5 as [[_ ->]|[_ ->]]; lia.
+  - assumption.
+  - apply Forall_app; split.
+    + rewrite F3. eapply Forall_impl; [|exact K8]. intros d. apply kldg_mono_write. assumption.
+    + apply Forall_filter. eapply Forall_impl; [|exact V3]. intros d. apply khdg_kldg. lia.
+Qed.
+
+(* states that differ only in fields the live invariant does not look at *)
+Lemma KLInv_ext cf b s s' :
+  KLInv b cf s -> s_now s <= s_now s' ->
+  s_changes s' = s_changes s -> s_last s' = s_last s -> s_rp s' = s_rp s -> s_rdead s' = s_rdead s ->
+  s_net s' = s_net s ->
+  (forall r', s_rd s' = Some r' -> exists r, s_rd s = Some r /\ rd_alive r' = rd_alive r /\ rd_wp r' = rd_wp r) ->
+  KLInv b cf s'.
+Proof.
+  intros (L1 & L2 & L3 & L4 & L5) Hnow Hc Hl Hp Hd Hn Hr. klinv_split.
+  - lia.
+  - rewrite Hc. assumption.
+  - congruence.
+  - intros r' Hr'. destruct (Hr r' Hr') as (r & E1 & E2 & _). rewrite E2. apply L4. assumption.
+  - intros p r' w Ep Hrel Er' Ew. destruct (Hr r' Er') as (r & E1 & _ & E3).
+    rewrite Hp in Ep. rewrite E3 in Ew. destruct (L5 p r w Ep Hrel E1 Ew) as [K1 K2 K3 K4 K6 K7 K8].
+    constructor; try assumption; try (rewrite Hl; assumption); try lia. rewrite Hl, Hn. assumption.
+Qed.
+
+Lemma KLive_step cf s a : 0 < fsz cf -> live_act cf a = true ->
+  KLive true cf s -> KLive true cf (fst (step cf s a)).
+Proof.
+  intros Hf Ha HL. pose proof HL as [HC HLI].
+  assert (Simple : KLInv true cf (fst (act cf s a)) -> KLive true cf (fst (step cf s a))).
+  { intros H. unfold step. pose proof (KS_act cf s a Ha HC) as HC1.
+    destruct (act cf s a) as [s1 o]. cbn [fst] in *. apply KLive_poke with (b := true). split; assumption. }
+  destruct a; try discriminate.
+  - (* AWrite *) cbn in Ha. apply andb_prop in Ha. destruct Ha as [H1 H2]. apply Z.leb_le in H1. apply Z.leb_le in H2.
+    apply KLInv_write; try assumption. lia.
+  - (* ATick *) apply Simple. cbn [act fst].
+    eapply KLInv_ext; [exact HLI|cbn; unfold tick_ms; lia|reflexivity|reflexivity|reflexivity|reflexivity|reflexivity|].
+    intros r' Hr'. exists r'. auto.
+  - (* ADeliver *) unfold step. cbn [act]. destruct (nth_error (s_net s) i) as [d|] eqn:E; cbn [fst].
+    + apply KLive_poke with (b := true). apply KLive_deliver; [assumption|eapply nth_error_In; eassumption|].
+      intros x Hx. eapply remove_nth_in. exact Hx.
+    + apply KLive_poke with (b := true). assumption.
+  - (* ADrop *) unfold step. cbn [act]. destruct (nth_error (s_net s) i) as [d|] eqn:E; cbn [fst].
+    + apply KLive_poke with (b := true). apply KLive_same_elements; [assumption| |].
+      * intros x Hx. eapply remove_nth_in. exact Hx.
+      * intros Hr. destruct HC as (_ & HN & _). destruct (HN Hr) as [En _]. rewrite En in E. destruct i; discriminate.
+    + apply KLive_poke with (b := true). assumption.
+  - (* ADup *) unfold step. cbn [act]. destruct (nth_error (s_net s) i) as [d|] eqn:E; cbn [fst].
+    + apply KLive_poke with (b := true). apply KLive_dup; [assumption|eapply nth_error_In; eassumption|].
+      intros x Hx. eapply remove_nth_in. exact Hx.
+    + apply KLive_poke with (b := true). assumption.
+  - (* APump *) unfold step. cbn [act]. pose proof (KLive_pump cf pump_fuel s 0 HL) as Hp.
+    destruct (pump pump_fuel cf s 0) as [s1 n]. cbn [fst] in *. apply KLive_poke with (b := true). assumption.
+  - (* ATake *) apply Simple. cbn [act]. destruct (s_rd s) as [r|] eqn:Er; [|exact HLI].
+    destruct (rd_alive r) eqn:Eal; cbn [fst]; [|exact HLI].
+    eapply KLInv_ext; [exact HLI|cbn; lia|reflexivity|reflexivity|reflexivity|reflexivity|reflexivity|].
+    intros r' Hr'. cbn in Hr'. injection Hr' as <-. exists r. cbn. auto.
+  - (* AMatch *) unfold step. pose proof (KS_act cf s (AMatch rel tl) Ha HC) as HC1. cbn [act] in *.
+    destruct (s_rd s) as [r|] eqn:Er; cbn [fst] in *; [apply KLive_poke with (b := true); assumption|].
+    destruct HC as (HG & HN & HK). destruct (HN Er) as [Hnet Hrp]. rewrite Hrp in *. rewrite orb_false_r in *.
+    destruct HLI as (L1 & L2 & L3 & L4 & L5). rewrite L3 in *.
+    destruct (rxo_ok cf rel tl); cbn [fst] in *.
+    + apply KLive_poke with (b := true). split; [exact HC1|].
+      (* the state after the inner poke *)
+      match type of HC1 with KS (poke cf ?st) =>
+        assert (HKst : KS st /\ KLInv false cf st); [|destruct HKst as [X Y]; eapply KLInv_poke; eassumption] end.
+      split.
+      * (* KS of the freshly matched state: as in KS_act, before the poke *)
+        split; [|split].
+        -- pose proof (GS_act cf s (AMatch rel tl) HN HG) as Hx. cbn [act] in Hx. rewrite Er, Hrp, L3 in Hx. cbn [orb] in Hx.
+           (* GS_act gives the state after the poke; redo the pre-poke part directly *)
+           clear Hx. destruct HG as [HS [G0 _]]. split.
+           ++ destruct HS as [S1 S2 S3 S4 S5]. constructor; cbn; try assumption.
+              unfold ARInv, RInv, WOk; cbn. repeat split; constructor.
+           ++ split; [exact G0|]. cbn.
+              assert (Hack : AckOk (if tl then 0 else last_sn (s_changes s)) (s_changes s) [] (s_last s) 0).
+              { split; [assumption|]. intros c Hc Hfr Hle. exfalso. destruct tl; [lia|].
+                apply in_le_last_sn in Hc. lia. }
+              unfold GP, RdPart, presented, RdOk. cbn. rewrite Hnet.
+              split; [constructor|]. split; [intros _; exact Hack|]. split; [constructor|]. split; [reflexivity|].
+              split; [lia|]. split; [lia|]. split; [lia|]. split; [constructor|]. intros _. exact Hack.
+        -- intros Hn. cbn in Hn. discriminate.
+        -- destruct HK as [HKC _]. split; [exact HKC|]. cbn. destruct HKC as (K0 & Kb & Kl). rewrite Kl. destruct tl; lia.
+      * klinv_split; cbn; try assumption; try reflexivity.
+        -- intros r' Hr'. injection Hr' as <-. reflexivity.
+        -- intros p r' w Ep Hrel Er' Ew. injection Ep as <-. injection Er' as <-. cbn in Ew. injection Ew as <-.
+           constructor; cbn; try lia; try reflexivity; try discriminate.
+           rewrite Hnet. constructor.
+    + apply KLive_poke with (b := true). split; [exact HC1|].
+      klinv_split; cbn; try assumption; try reflexivity.
+      * intros r' Hr'. injection Hr' as <-. reflexivity.
+      * intros p r' w Ep. congruence.
+  - (* AWfa *) apply Simple. cbn [act].
+    destruct (is_acked (s_rp s) (s_last s)); cbn [fst];
+      (eapply KLInv_ext; [exact HLI|cbn; lia|reflexivity|reflexivity|reflexivity|reflexivity|reflexivity|]);
+      intros r' Hr'; exists r'; auto.
+  - (* AWfaPoll *) apply Simple. cbn [act]. destruct (poll (s_waits s)) as [wl o]. cbn [fst].
+    eapply KLInv_ext; [exact HLI|cbn; lia|reflexivity|reflexivity|reflexivity|reflexivity|reflexivity|].
+    intros r' Hr'. exists r'. auto.
+  - (* AWfh *) apply Simple. cbn [act].
+    destruct (s_rd s) as [r|] eqn:Er; [|exact HLI].
+    destruct (negb (rd_alive r)); [exact HLI|].
+    destruct (negb (rd_tl r)); [exact HLI|].
+    destruct (hist_received (rd_wp r)); cbn [fst];
+      (eapply KLInv_ext; [exact HLI|cbn; lia|reflexivity|reflexivity|reflexivity|reflexivity|reflexivity|]);
+      intros r' Hr'; cbn in Hr'; injection Hr' as <-; exists r; cbn; auto.
+  - (* AWfhPoll *) apply Simple. cbn [act].
+    destruct (s_rd s) as [r|] eqn:Er; [|exact HLI].
+    destruct (poll (rd_hwaits r)) as [wl o]. cbn [fst].
+    eapply KLInv_ext; [exact HLI|cbn; lia|reflexivity|reflexivity|reflexivity|reflexivity|reflexivity|].
+    intros r' Hr'. cbn in Hr'. injection Hr' as <-. exists r. cbn. auto.
+  - (* AQuery *) apply Simple. exact HLI.
+  - (* ANow *) apply Simple. exact HLI.
+Qed.
+
+Lemma KLive_run cf l : 0 < fsz cf -> forallb (live_act cf) l = true ->
+  forall s, KLive true cf s -> KLive true cf (run cf s l).
+Proof.
+  intros Hf. induction l as [|a t IH]; intros Hl s H; [exact H|]. cbn in Hl. apply andb_prop in Hl.
+  destruct Hl as [Ha Ht]. rewrite run_cons. apply IH; [assumption|]. apply KLive_step; assumption.
+Qed.
+
+Lemma KLive_init cf : KLive true cf init.
+Proof.
+  split; [apply KS_init|]. klinv_split; cbn; try lia; try reflexivity.
+  - intros c [].
+  - intros r Hr. discriminate.
+  - intros p r w Hp. discriminate.
+Qed.
